@@ -218,7 +218,7 @@ func (m *c15Model) missingAncestors(p string) (missing []string, blocked bool) {
 
 func TestVerifC15(t *testing.T) {
 	s := vs.NewStats(t, "C15")
-	s.Rule = "stateful: 1-3 real zkDCS clients over the fake ZooKeeper in a synctest bubble + a raw writer; 8-40 steps drawn from {Create, CreateEphemeral, Set, SetEphemeral, Get, Delete, GetChildren, GetTree} on 9 keys of depth 0-3 with random redundant slashes and 7 JSON value shapes, raw writes of non-JSON bytes, sever / cut-off (sever+refuse) / heal / force-expire of a client, virtual-time advances shorter and longer than the session timeout; after every step each call result and the server's whole tree are compared with a reference tree model written from the statement; non-trivial = an ephemeral key outlived-or-died with its session, a malformed read, or a parent creation happened"
+	s.Rule = "stateful: 1-3 real zkDCS clients over the fake ZooKeeper in a synctest bubble + a raw writer; 8-40 steps drawn from {Create, CreateEphemeral, Set, SetEphemeral, Get, Delete, GetChildren, GetTree} on 9 keys of depth 0-3 with random redundant slashes and 7 JSON value shapes, raw writes of non-JSON bytes, a create request lost on the wire while somebody else creates the key before the re-send, sever / cut-off (sever+refuse) / heal / force-expire of a client, virtual-time advances shorter and longer than the session timeout; after every step each call result and the server's whole tree are compared with a reference tree model written from the statement; non-trivial = an ephemeral key outlived-or-died with its session, a malformed read, or a parent creation happened"
 	s.Assumptions = []string{
 		"fake ZooKeeper implements documented znode/session semantics (versions, ephemerals deleted at session expiry, no children under ephemerals)",
 		"session liveness used by the reference model is the fake server's; the timing clause (ephemerals gone within the session timeout after a cut-off) is asserted separately against the virtual clock",
@@ -306,6 +306,12 @@ func TestVerifC15(t *testing.T) {
 			}
 		}
 
+		sawRival := false
+		defer func() {
+			if sawRival {
+				c.Class("rival-created-the-key-while-a-create-was-in-limbo")
+			}
+		}()
 		steps := c.Src.Int("steps", 8, 40)
 		for i := 0; i < steps; i++ {
 			act := c.Src.Pick("action", "create", "create-ephemeral", "set", "set-ephemeral", "get", "delete", "children", "tree",
@@ -373,6 +379,27 @@ func TestVerifC15(t *testing.T) {
 					if n.owner != 0 && !srv.SessionAlive(n.owner) {
 						delete(model.nodes, p)
 						sawEphemeralEnd = true
+					}
+				}
+				// the interleaving a sequential driver cannot produce: the client's create request is
+				// lost on the wire (connection cut, session kept) and, before the client re-sends it,
+				// somebody else creates the key. 'exists' is then the only right answer.
+				srv.Intercept = nil
+				if (act == "create" || act == "create-ephemeral") && len(key) > 0 && c.Src.Int("rival_creates_the_key_while_the_request_is_in_limbo", 0, 5) == 0 {
+					if _, exists := model.nodes[full]; !exists {
+						if miss, blocked := model.missingAncestors(full); !blocked && len(miss) == 0 {
+							armed := true
+							srv.Intercept = func(r *vs.ZKReq) vs.ZKAction {
+								if !armed || r.Client != cl.name || r.Op != vs.OpCreate || strings.Trim(r.Path, "/") != strings.Trim(full, "/") {
+									return vs.ZKProceed
+								}
+								armed = false
+								srv.RawSet(full, []byte(`"rival"`))
+								model.nodes[full] = &mnode{data: []byte(`"rival"`)}
+								sawRival = true
+								return vs.ZKCutBefore
+							}
+						}
 					}
 				}
 				mutsBefore := srv.MutLen()
